@@ -430,6 +430,12 @@ func checkOutboxSQL(w *World, r *Run, rule string, stmts []*sqlStmt, entity, tab
 					detail = "expected ORDER BY " + want + " LIMIT 1, found ORDER BY " + order + " LIMIT " + limit
 				}
 			}
+			// the head (tail) of the queue is the oldest (newest) entry whatever its lease: a
+			// lookup that skips claimed entries lets a later operation overtake an earlier one
+			if j := joinToks(where); strings.Contains(j, "claim_owner") || strings.Contains(j, "claim_until") {
+				ok = false
+				detail = "the queue head lookup filters on the claim columns (" + j + "): an entry held under another worker's lease is skipped and a later operation on the same object is replayed before it"
+			}
 			// pair agreement
 			var sibName string
 			if strings.HasPrefix(n, "findFirst") {
